@@ -29,9 +29,13 @@ BASES = {"int": int, "float": float, "str": str, "bool": bool}
 # dependent-refinement shapes: the same table is used to build the library object and by the oracle
 
 
-def dep_params(shape: str, k, value):
-    """Returns the refinement descriptor [mh, *params] that the dependency yields for a sibling value,
-    or None when the dependency makes the production infeasible (library raises SynthesisException)."""
+def dep_params(shape: str, k, value, *more):
+    """Returns the refinement descriptor [mh, *params] that the dependency yields for a sibling value (or values, in
+    the order the dependency NAMES them), or None when the dependency makes the production infeasible (library
+    raises SynthesisException)."""
+    if shape == "intrange_span":  # names "width,base": int in [base, base + width]  (not symmetric in its arguments)
+        width, base = value, more[0]
+        return ["IntRange", base, base + width + k]
     if shape == "intrange_up":  # int in [a, a+k]
         return ["IntRange", value, value + k]
     if shape == "intlist_pair":  # int in {a, a+k}
@@ -96,8 +100,8 @@ def build_type(t, ns):
     if k == "dep":
         shape, kk = t[3], t[4]
 
-        def f(value, shape=shape, kk=kk):
-            d = dep_params(shape, kk, value)
+        def f(value, *more, shape=shape, kk=kk):
+            d = dep_params(shape, kk, value, *more)
             if d is None:
                 INFEASIBLE["hits"] += 1
                 from geneticengine.grammar.metahandlers.vars import VarRange
@@ -122,9 +126,65 @@ class Built:
         sys.modules.pop(self.module.__name__, None)
 
 
+def _py_preset(desc) -> Built:
+    """A hand-built hierarchy whose own metahandler hands initial values to the production it creates
+    (rec(T, initial_values=...), as in tests/representations/dependent_types_context_test.py). Below the preset
+    production sit productions with a SAME-NAMED field of another type."""
+    from abc import ABC as _ABC
+
+    from geneticengine.grammar.metahandlers.base import MetaHandlerGenerator
+    from geneticengine.grammar.metahandlers.ints import IntRange
+    from geneticengine.grammar.metahandlers.vars import VarRange
+
+    modname = f"gev_dyn_{next(_counter)}_{desc.get('name', 'py')}"
+    mod = types.ModuleType(modname)
+    sys.modules[modname] = mod
+
+    class Preset(MetaHandlerGenerator):
+        def __init__(self, **vals):
+            self.vals = vals
+
+        def generate(self, random, grammar, base_type, rec, dependent_values):
+            return rec(base_type, initial_values=dict(self.vals))
+
+        def validate(self, v):
+            return True
+
+        def __repr__(self):
+            return f"Preset({self.vals})"
+
+    # (this module uses postponed annotations, so the classes are assembled from real type objects, as in materialise)
+    def mk(name, bases, fields):
+        cls = type(name, bases, {"__module__": modname, "__qualname__": name})
+        cls.__annotations__ = dict(fields)
+        return cls
+
+    Expr = type("Expr", (_ABC,), {"__module__": modname})
+    Name = mk("Name", (Expr,), [("value", Annotated[str, VarRange(["x", "y"])])])
+    Num = mk("Num", (Expr,), [("n", Annotated[int, IntRange(0, 3)])])
+    Both = mk("Both", (Expr,), [("left", Expr), ("right", Expr)])
+    Many = mk("Many", (Expr,), [("items", list[Expr])])
+    Scaled = mk("Scaled", (Expr,), [("value", int), ("inner", Expr)])
+    Program = mk("Program", (), [("body", Annotated[Scaled, Preset(value=1)]), ("other", Expr)])
+    ns = {}
+    for c in (Expr, Name, Num, Both, Many, Scaled, Program):
+        if c is not Expr:
+            dataclass(c)
+        setattr(mod, c.__name__, c)
+        ns[c.__name__] = c
+    return Built(desc, mod, ns, [Name, Num, Both, Many, Scaled, Program], Program, {})
+
+
+PYTHON_GRAMMARS = {"preset": _py_preset}
+FIXED_PYTHON = [{"name": "py_preset", "python": "preset", "abstracts": [], "prods": [], "start": "Program"}]
+
+
 def materialise(desc: dict) -> Built:
     """Builds fresh classes (weights live on the classes, so every case gets its own)."""
     from geneticengine.grammar.decorators import abstract, weight
+
+    if desc.get("python"):
+        return PYTHON_GRAMMARS[desc["python"]](desc)
 
     modname = f"gev_dyn_{next(_counter)}_{desc.get('name', 'g')}"
     mod = types.ModuleType(modname)
@@ -262,6 +322,9 @@ def _gen_type(rng, names_abs, names_conc, depth, profile, siblings):
         return ["ann", ["tuple", ["int"], ["int"]], ["IntervalRange", lo, hi, hi + rng.choice([1, 2, 10])]]
     # dependent refinement on an earlier int sibling with a small range
     cands = [(n, t) for n, t in siblings if t[0] == "ann" and t[1] == ["int"] and t[2][0] == "IntRange" and 0 <= t[2][1] and t[2][2] <= 4]
+    if len(cands) >= 2 and not finite and rng.random() < 0.5:
+        (n1, _), (n2, _) = sorted(rng.sample(cands, 2))
+        return ["dep", ["int"], f"{n2},{n1}", "intrange_span", rng.choice([0, 1])]  # "f1,f0": declared order matters
     if cands and not finite:
         n, t = rng.choice(cands)
         shape = rng.choice(["intrange_up", "intlist_pair", "varrange_n", "listsize_eq"] if profile == "dep" else ["intrange_up", "intlist_pair", "listsize_eq"])
@@ -391,6 +454,7 @@ FIXED = [
             {"name": "Named", "parent": "R", "fields": [["n", ["ann", ["int"], ["IntRange", 0, 2]]], ["name", ["dep", ["str"], "n", "varrange_n", 0]]]},
             {"name": "Two", "parent": "R", "fields": [["x", ["ref", "R"]], ["y", ["ref", "R"]]]},
             {"name": "Sized", "parent": "R", "fields": [["n", ["ann", ["int"], ["IntRange", 0, 2]]], ["xs", ["dep", ["list", ["ann", ["int"], ["IntRange", 0, 5]]], "n", "listsize_eq", 0]]]},
+            {"name": "Span", "parent": "R", "fields": [["base", ["ann", ["int"], ["IntRange", 0, 3]]], ["width", ["ann", ["int"], ["IntRange", 0, 2]]], ["x", ["dep", ["int"], "width,base", "intrange_span", 0]]]},
             {"name": "End", "parent": "R", "fields": []},
         ],
         "start": "R",
@@ -451,11 +515,13 @@ def retyped(desc: dict, rng) -> dict | None:
     `Prod.__init__.__annotations__[field] = NewType` followed by a new extraction). None if nothing suitable."""
     import copy
 
+    if desc.get("python"):
+        return None
     d = copy.deepcopy(desc)
     cands = []
     leafs = [p["name"] for p in d["prods"] if not p["fields"]]
     for p in d["prods"]:
-        depended_on = {g[1][2] for g in p["fields"] if g[1][0] == "dep"}
+        depended_on = {n for g in p["fields"] if g[1][0] == "dep" for n in g[1][2].split(",")}
         for f in p["fields"]:
             t = f[1]
             if f[0] in depended_on:
@@ -496,6 +562,8 @@ def family(seed: int, n: int, profile="general", with_fixed=True):
     out = []
     if with_fixed:
         out.extend(FIXED)
+        if profile == "general":
+            out.extend(FIXED_PYTHON)
     i = 0
     while len(out) < n:
         out.append(gen_descriptor(seed * 100003 + i, profile))
